@@ -1,11 +1,29 @@
 import Synphot.Driver.Ops.Base
+import Synphot.Driver.Ops.C03
+import Synphot.Driver.Ops.C02
+import Synphot.Driver.Ops.C05
+import Synphot.Driver.Ops.C13
+import Synphot.Driver.Ops.C20
+import Synphot.Driver.Ops.C12
+import Synphot.Driver.Ops.C17
+import Synphot.Driver.Ops.C16
+import Synphot.Driver.Ops.C14
 -- one import + one line in `dispatchers` per ops module
 open Lean Synphot
 
 namespace Synphot.Driver
 
 def dispatchers : List (String → Json → Option (M Json)) := [
-  dispatchBase
+  dispatchBase,
+  dispatchC03,
+  dispatchC02,
+  dispatchC05,
+  dispatchC13,
+  dispatchC20,
+  dispatchC12,
+  dispatchC17,
+  dispatchC16,
+  dispatchC14
 ]
 
 def dispatch (op : String) (j : Json) : M Json :=
